@@ -39,6 +39,29 @@ def c02_violations(sess, cands, tr, step, aborted=False):
     1 for the normal simulator, the chunk size for the fast simulator)"""
     out = []
     orders = order_table(tr)
+    # a MARKET order is filled before anything else happens to the book: between its submission and its fill no
+    # resting (LIMIT / STOP) order may be filled
+    ev = tr.events
+    pending = {}
+    last_fill_price = None
+    for e in ev:
+        if e[0] == 'SUBMIT' and e[5] == 'MARKET':
+            # where the price path stands when the order is submitted = the price of the fill whose hook submits it
+            pending[e[1]] = last_fill_price
+        elif e[0] in ('FILL', 'CANCEL'):
+            k = e[1]
+            if e[0] == 'FILL':
+                last_fill_price = float(e[7])
+            if k in pending:
+                del pending[k]
+            elif e[0] == 'FILL' and e[5] != 'MARKET' and pending:
+                m = next(iter(pending))
+                at_path = pending[m] is not None and abs(float(orders[m]['price']) - pending[m]) <= 1e-9 * max(1.0, abs(pending[m]))
+                out.append(('market-order-overtaken', m, dict(orders[m], overtaken_by=dict(orders[k], ordinal=k),
+                                                              path_position=pending[m], market_priced_at_path_position=at_path)))
+                pending.clear()
+        elif e[0] == 'DAILY' or e[0] == 'POS':
+            pass
     for sym in sess['syms']:
         arr = cands[sym]
         t0 = int(arr[0][0])
@@ -160,6 +183,7 @@ def c08_violations(sess, cands, tr):
 def c01_compare(sess, cands, cut, rng):
     """two real runs that share the candles before row `cut`; the traces must agree on every event
     before simulated time t = ts[cut] (hooks carry index/price/position, orders/fills their fields)"""
+    cut = cut + sess.get('warmup', 0)       # the arrays start with the warm-up rows
     alt = {}
     for s, arr in cands.items():
         tail_n = max(len(arr) - cut + rng.choice([0, 0, 3, -2]), 1)
